@@ -2,7 +2,7 @@
   Csvq.Lemmas.Lalr — what `check P C = true` (Lemmas/LalrCheck.lean) means, and the invariant of the goyacc driver
   loop (Model/Lalr.lean) built on it:
 
-    every table read and every stack read of `step` is in range, the invariant is preserved, and a measure
+    every table read and every stack read of `step` is in range, the invariant is preserved, and a loopMeasure
     (tokens left, then Σ weight + rank of the top state) strictly decreases with every round.
 
   The proofs never look inside the certificates: `Cert.row`, `Cert.lowIdx`, depth / weight / rank are arbitrary
@@ -188,25 +188,26 @@ theorem foldl_min_le {w : Nat → Nat} : ∀ (L : List Nat) (acc : Nat),
 
 theorem Packed.get_eq (p : Packed) (i : Nat) : p.get i = (p.raw i : Int) - 32768 := rfl
 
-theorem Packed.size_toArray (p : Packed) : p.toArray.size = p.size := by
-  unfold Packed.toArray; simp
+theorem Packed.size_toArray (p : Packed) : p.arrayTab.size = p.size := by
+  rw [Packed.arrayTab_eq]; rfl
 
 theorem rd_packed (w : Where) (p : Packed) (i : Int) :
-    rd w p.toArray i = if 0 ≤ i ∧ i.toNat < p.size then .ok (p.get i.toNat) else .error w := by
-  unfold rd Packed.toArray
+    rd w p.arrayTab i = if 0 ≤ i ∧ i.toNat < p.size then .ok (p.get i.toNat) else .error w := by
+  rw [Packed.arrayTab_eq]
+  unfold rd Packed.tab
   by_cases h0 : 0 ≤ i
-  · rw [if_pos h0, Array.getElem?_ofFn]
+  · rw [if_pos h0]
     by_cases h1 : i.toNat < p.size
-    · rw [dif_pos h1, if_pos ⟨h0, h1⟩]
-    · rw [dif_neg h1, if_neg (fun h => h1 h.2)]
+    · simp only [if_pos h1, if_pos (And.intro h0 h1)]
+    · simp only [if_neg h1, if_neg (fun h : 0 ≤ i ∧ i.toNat < p.size => h1 h.2)]
   · rw [if_neg h0, if_neg (fun h => h0 h.1)]
 
 theorem rd_ok {w : Where} {p : Packed} {i : Int} (h0 : 0 ≤ i) (h1 : i.toNat < p.size) :
-    rd w p.toArray i = .ok (p.get i.toNat) := by
+    rd w p.arrayTab i = .ok (p.get i.toNat) := by
   rw [rd_packed, if_pos ⟨h0, h1⟩]
 
 theorem rd_ok_nat {w : Where} {p : Packed} {i : Nat} (h1 : i < p.size) :
-    rd w p.toArray (i : Int) = .ok (p.get i) := by
+    rd w p.arrayTab (i : Int) = .ok (p.get i) := by
   have := rd_ok (w := w) (p := p) (i := (i : Int)) (by omega) (by simpa using h1)
   simpa using this
 
@@ -523,17 +524,17 @@ end specs
 section model
 variable {P C}
 
-@[simp] theorem toTables_tok1 : P.toTables.tok1 = P.tok1.toArray := rfl
-@[simp] theorem toTables_tok2 : P.toTables.tok2 = P.tok2.toArray := rfl
-@[simp] theorem toTables_tok3 : P.toTables.tok3 = P.tok3.toArray := rfl
-@[simp] theorem toTables_exca : P.toTables.exca = P.exca.toArray := rfl
-@[simp] theorem toTables_act : P.toTables.act = P.act.toArray := rfl
-@[simp] theorem toTables_pact : P.toTables.pact = P.pact.toArray := rfl
-@[simp] theorem toTables_pgo : P.toTables.pgo = P.pgo.toArray := rfl
-@[simp] theorem toTables_r1 : P.toTables.r1 = P.r1.toArray := rfl
-@[simp] theorem toTables_r2 : P.toTables.r2 = P.r2.toArray := rfl
-@[simp] theorem toTables_chk : P.toTables.chk = P.chk.toArray := rfl
-@[simp] theorem toTables_dflt : P.toTables.dflt = P.dflt.toArray := rfl
+@[simp] theorem toTables_tok1 : P.toTables.tok1 = P.tok1.arrayTab := rfl
+@[simp] theorem toTables_tok2 : P.toTables.tok2 = P.tok2.arrayTab := rfl
+@[simp] theorem toTables_tok3 : P.toTables.tok3 = P.tok3.arrayTab := rfl
+@[simp] theorem toTables_exca : P.toTables.exca = P.exca.arrayTab := rfl
+@[simp] theorem toTables_act : P.toTables.act = P.act.arrayTab := rfl
+@[simp] theorem toTables_pact : P.toTables.pact = P.pact.arrayTab := rfl
+@[simp] theorem toTables_pgo : P.toTables.pgo = P.pgo.arrayTab := rfl
+@[simp] theorem toTables_r1 : P.toTables.r1 = P.r1.arrayTab := rfl
+@[simp] theorem toTables_r2 : P.toTables.r2 = P.r2.arrayTab := rfl
+@[simp] theorem toTables_chk : P.toTables.chk = P.chk.arrayTab := rfl
+@[simp] theorem toTables_dflt : P.toTables.dflt = P.dflt.arrayTab := rfl
 @[simp] theorem toTables_last : P.toTables.last = P.last := rfl
 @[simp] theorem toTables_priv : P.toTables.priv = P.priv := rfl
 @[simp] theorem toTables_flag : P.toTables.flag = P.flag := rfl
@@ -965,6 +966,224 @@ theorem errorStep_spec (F : Facts P C) {N : Nat} {s : St} {L : List Nat} (I : In
   unfold errorStep
   rw [if_pos I.errflag, I.stack]
   exact recoverLoop_spec F _ L I.valid
+
+/-! ## one round of the loop -/
+
+/-- the measure: tokens still to shift (weighted so that a shift pays for the state it pushes), then `phi` -/
+def loopMeasure (C : Cert) (s : St) (L : List Nat) : Nat := (C.bound + 1) * tokCount s + phi C L
+
+/-- what a round that started with loopMeasure below `m0` may produce -/
+def Good (P : PTables) (C : Cert) (N m0 : Nat) (o : M Outcome) : Prop :=
+  o = .ok .accept ∨ (∃ i, o = .ok (.abort i) ∧ i ≤ N) ∨
+  ∃ s' e L', o = .ok (.next s' e) ∧ Inv P C N s' L' ∧ loopMeasure C s' L' < m0
+
+theorem Good.mono {N m m' : Nat} {o : M Outcome} (h : Good P C N m o) (hm : m ≤ m') : Good P C N m' o := by
+  rcases h with h | h | ⟨s', e, L', h1, h2, h3⟩
+  · exact Or.inl h
+  · exact Or.inr (Or.inl h)
+  · exact Or.inr (Or.inr ⟨s', e, L', h1, h2, Nat.lt_of_lt_of_le h3 hm⟩)
+
+/-- the part of `dfltStep` after the action `yyn` (stored form `r`) is known -/
+theorem action_spec (F : Facts P C) {N : Nat} {s : St} {st : Nat} {L0 : List Nat} (I : Inv P C N s (st :: L0))
+    {r : Nat} (hact : actionOK P C st r = true) (hr : 32768 ≤ r) :
+    Good P C N (loopMeasure C s (st :: L0))
+      (if (r : Int) - 32768 = 0 then errorStep P.toTables s else reduce P.toTables s ((r : Int) - 32768)) := by
+  by_cases h0 : (r : Int) - 32768 = 0
+  · rw [if_pos h0, errorStep_spec F I]
+    exact Or.inr (Or.inl ⟨s.cur, rfl, I.cur⟩)
+  · rw [if_neg h0]
+    obtain ⟨s', e, L', h1, h2, h3, h4⟩ := reduce_spec F I hact (by omega)
+    refine Or.inr (Or.inr ⟨s', e, L', h1, h2, ?_⟩)
+    unfold loopMeasure
+    rw [h4]; omega
+
+theorem dfltStep_spec (F : Facts P C) {N : Nat} {s : St} {st : Nat} {L0 : List Nat} (I : Inv P C N s (st :: L0)) :
+    Good P C N (loopMeasure C s (st :: L0)) (dfltStep P.toTables s) := by
+  have hstack := I.stack
+  simp only [List.map_cons, List.cons.injEq] at hstack
+  have hst : st < P.n := I.valid st (by simp)
+  unfold dfltStep
+  simp only [toTables_dflt, toTables_exca, Packed.size_toArray]
+  rw [hstack.1, show (Int.ofNat st) = (st : Int) from rfl, rd_ok_nat (by rw [F.dfltSize]; exact hst), andThen_ok]
+  have hS := F.states st hst
+  unfold stateOK at hS
+  by_cases hd : P.dflt.raw st = 32766
+  · have hb : Nat.beq (P.dflt.raw st) 32766 = true := by rw [Nat.beq_eq]; exact hd
+    have hfind := cond_true_of hb hS
+    rw [if_pos (by rw [Packed.get_eq]; omega)]
+    obtain ⟨s1, he1, I1, htc, _, _, hs1, _⟩ := ensureTok_spec F I
+    rw [he1, andThen_ok]
+    obtain ⟨b, hb1, hb2⟩ := findBlock_spec hfind
+    rw [hs1, hstack.1, show (Int.ofNat st) = (st : Int) from rfl]
+    simp only [Int.natCast_zero] at hb1
+    rw [hb1, andThen_ok]
+    obtain ⟨r, hr1, hr2⟩ := blockAll_spec s1.token hb2
+    have hx : ((b : Int) + 2) = ((Nat.add b 2 : Nat) : Int) := by simp only [Nat.add_eq]; omega
+    rw [hx, hr1, andThen_ok]
+    by_cases hneg : (r : Int) - 32768 < 0
+    · rw [if_pos hneg]; exact Or.inl rfl
+    · rw [if_neg hneg]
+      have := action_spec F I1 hr2 (by omega)
+      refine this.mono ?_
+      unfold loopMeasure; have := Nat.mul_le_mul_left (C.bound + 1) htc; omega
+  · have hb : Nat.beq (P.dflt.raw st) 32766 = false := by
+      cases hb : Nat.beq (P.dflt.raw st) 32766
+      · rfl
+      · rw [Nat.beq_eq] at hb; exact absurd hb hd
+    have hB := cond_false_of hb hS
+    rw [Bool.and_eq_true, Nat.ble_eq] at hB
+    rw [if_neg (by rw [Packed.get_eq]; omega), Packed.get_eq]
+    exact action_spec F I hB.2 hB.1
+
+theorem stepM_spec (F : Facts P C) {N : Nat} {s : St} {st : Nat} {L0 : List Nat} (I : Inv P C N s (st :: L0)) :
+    Good P C N (loopMeasure C s (st :: L0)) (stepM P.toTables s) := by
+  have hstack := I.stack
+  simp only [List.map_cons, List.cons.injEq] at hstack
+  have hst : st < P.n := I.valid st (by simp)
+  unfold stepM
+  have hlast : P.toTables.last = (P.act.size : Int) := F.last
+  simp only [toTables_pact, toTables_act, toTables_chk, hlast]
+  rw [hstack.1, show (Int.ofNat st) = (st : Int) from rfl, rd_ok_nat hst, andThen_ok]
+  split
+  · exact dfltStep_spec F I
+  · obtain ⟨s1, he1, I1, htc, htok, heof, hs1, hb1⟩ := ensureTok_spec F I
+    rw [he1, andThen_ok]
+    have hmono : loopMeasure C s1 (st :: L0) ≤ loopMeasure C s (st :: L0) := by
+      unfold loopMeasure; have := Nat.mul_le_mul_left (C.bound + 1) htc; omega
+    split
+    · exact (dfltStep_spec F I1).mono hmono
+    · rename_i hrange
+      -- the token as a natural number
+      obtain ⟨tk, htk⟩ : ∃ tk : Nat, s1.token = (tk : Int) := ⟨s1.token.toNat, by have := htok.1; omega⟩
+      have htkle : tk ≤ C.maxTok := by have := htok.2; omega
+      have hget := Packed.get_eq P.pact st
+      have h1 : 32768 ≤ P.pact.raw st + tk := by omega
+      have h2 : P.pact.raw st + tk < 32768 + P.act.size := by omega
+      have hidx : P.pact.get st + s1.token = ((unb (P.pact.raw st + tk) : Nat) : Int) := by
+        have := unb_def (P.pact.raw st + tk); omega
+      have hil : unb (P.pact.raw st + tk) < P.act.size := by
+        have := unb_def (P.pact.raw st + tk); omega
+      have hact := F.act _ hil
+      have hu : unb (P.act.raw (unb (P.pact.raw st + tk))) < P.n := by
+        have := unb_def (P.act.raw (unb (P.pact.raw st + tk))); omega
+      rw [hidx, rd_ok_nat hil, andThen_ok, get_unb hact.1, rd_ok_nat (by rw [F.chkSize]; exact hu), andThen_ok]
+      split
+      · rename_i hc
+        -- a shift
+        have hc3 : P.chk.raw (unb (P.act.raw (unb (P.pact.raw st + tk)))) = tk + 32768 := by
+          rw [Packed.get_eq] at hc
+          clear hget hidx hil hact hu h1 h2 hrange hmono
+          omega
+        have hbelow := shiftK_spec (F.shiftClosed st hst tk htkle) h1 h2 hc3
+        have hchar : 0 ≤ s1.char := by
+          apply Int.not_lt.mp
+          intro hneg
+          have hte := heof hneg
+          have : tk = eofTok P := Int.ofNat.inj (htk.symm.trans hte)
+          have hns := F.noEofShift st hst
+          rw [← this] at hns
+          have := shiftK_spec hns h1 h2 hc3
+          exact absurd this (by simp)
+        have hbound := F.bounded _ hu
+        refine Or.inr (Or.inr ⟨_, _, unb (P.act.raw (unb (P.pact.raw st + tk))) :: st :: L0, rfl, ?_, ?_⟩)
+        · refine ⟨?_, ?_, ⟨hbelow, I.chain⟩, ?_, ?_, Or.inl (by show (-1 : Int) < 0; omega), I1.count, I1.cur, I1.lastErr⟩
+          · show _ :: (s1.state :: s1.below) = _
+            rw [I1.stack]; rfl
+          · intro z hz
+            rcases List.mem_cons.mp hz with rfl | hz
+            · exact hu
+            · exact I.valid z hz
+          · rw [List.getLast?_cons_cons]; exact I.bottom
+          · show (if s1.errflag > 0 then s1.errflag - 1 else s1.errflag) = 0
+            rw [I1.errflag]; rfl
+        · -- the measure: the lookahead is used up
+          unfold loopMeasure tokCount phi
+          simp only [wsum, List.map_cons, List.sum_cons]
+          have hneg : ¬ (0 ≤ (-1 : Int)) := by omega
+          show (C.bound + 1) * (s1.rest.length + if 0 ≤ (-1 : Int) then 1 else 0) + _ < _
+          rw [if_neg hneg]
+          have htc1 : tokCount s1 = s1.rest.length + 1 := by unfold tokCount; rw [if_pos hchar]
+          have hm := Nat.mul_le_mul_left (C.bound + 1) htc
+          rw [htc1] at hm
+          have hexp : (C.bound + 1) * (s1.rest.length + 1) = (C.bound + 1) * s1.rest.length + (C.bound + 1) := by
+            rw [Nat.mul_add, Nat.mul_one]
+          unfold tokCount at hm
+          rw [hexp] at hm
+          simp only [Nat.add_zero]
+          clear hget hidx hil hact hu h1 h2 hrange hmono hbelow hc3 hexp
+          omega
+      · exact (dfltStep_spec F I1).mono hmono
+
+/-- the invariant always has a top state -/
+theorem Inv.cons {N : Nat} {s : St} {L : List Nat} (I : Inv P C N s L) : ∃ st L0, L = st :: L0 := by
+  cases L with
+  | nil => have := I.stack; simp at this
+  | cons st L0 => exact ⟨st, L0, rfl⟩
+
+/-- one round of the loop: in range, invariant kept, loopMeasure strictly smaller -/
+theorem step_spec (F : Facts P C) {N : Nat} {s : St} {L : List Nat} (I : Inv P C N s L) :
+    step P.toTables s = .accept ∨ (∃ i, step P.toTables s = .abort i ∧ i ≤ N) ∨
+    ∃ s' e L', step P.toTables s = .next s' e ∧ Inv P C N s' L' ∧ loopMeasure C s' L' < loopMeasure C s L := by
+  obtain ⟨st, L0, rfl⟩ := I.cons
+  unfold step
+  rcases stepM_spec F I with h | ⟨i, h, hi⟩ | ⟨s', e, L', h, hI, hm⟩
+  · rw [h]; exact Or.inl rfl
+  · rw [h]; exact Or.inr (Or.inl ⟨i, rfl, hi⟩)
+  · rw [h]; exact Or.inr (Or.inr ⟨s', e, L', rfl, hI, hm⟩)
+
+/-! ## the whole loop -/
+
+theorem init_inv (F : Facts P C) (toks : List Int) : Inv P C toks.length (init toks) [0] := by
+  refine ⟨rfl, ?_, trivial, rfl, rfl, Or.inl (by show (-1 : Int) < 0; omega), by simp [init], Nat.zero_le _, rfl⟩
+  intro x hx
+  simp at hx
+  subst hx
+  exact F.nPos
+
+/-- whatever the fuel: no index panic, and a syntax error names a token of the input (or its end) -/
+theorem run_safe (F : Facts P C) {N : Nat} : ∀ (fuel : Nat) (s : St) (L : List Nat), Inv P C N s L →
+    run P.toTables fuel s = .accept ∨ (∃ i, run P.toTables fuel s = .syntaxError i ∧ i ≤ N) ∨
+    run P.toTables fuel s = .outOfFuel := by
+  intro fuel
+  induction fuel with
+  | zero => intro s L _; exact Or.inr (Or.inr rfl)
+  | succ fuel ih =>
+    intro s L I
+    unfold run
+    rcases step_spec F I with h | ⟨i, h, hi⟩ | ⟨s', e, L', h, hI, _⟩
+    · rw [h]; exact Or.inl rfl
+    · rw [h]; exact Or.inr (Or.inl ⟨i, rfl, hi⟩)
+    · rw [h]; exact ih s' L' hI
+
+/-- enough fuel: the loop ends by itself -/
+theorem run_terminates (F : Facts P C) {N : Nat} : ∀ (fuel : Nat) (s : St) (L : List Nat), Inv P C N s L →
+    loopMeasure C s L < fuel → run P.toTables fuel s ≠ .outOfFuel := by
+  intro fuel
+  induction fuel with
+  | zero => intro s L _ h; omega
+  | succ fuel ih =>
+    intro s L I hm
+    unfold run
+    rcases step_spec F I with h | ⟨i, h, _⟩ | ⟨s', e, L', h, hI, hlt⟩
+    · rw [h]; simp
+    · rw [h]; simp
+    · rw [h]; exact ih s' L' hI (by omega)
+
+/-- more fuel than needed changes nothing -/
+theorem run_fuel_irrelevant (T : Tables) : ∀ (fuel extra : Nat) (s : St), run T fuel s ≠ .outOfFuel →
+    run T (fuel + extra) s = run T fuel s := by
+  intro fuel
+  induction fuel with
+  | zero => intro extra s h; exact absurd rfl h
+  | succ fuel ih =>
+    intro extra s h
+    rw [show fuel + 1 + extra = (fuel + extra) + 1 by omega]
+    unfold run at h ⊢
+    cases hs : step T s with
+    | next s' e => rw [hs] at h; exact ih extra s' h
+    | accept => rfl
+    | abort i => rfl
+    | panic w => rfl
 
 end model
 
